@@ -489,4 +489,281 @@ theorem encodeScaled_decode (w : UInt64) (z : Int) (h : decode w = .fin z) :
       rcases (show sgn = 0 ∨ sgn = 1 by omega) with h0 | h0 <;> subst h0 <;> simp <;> omega
   rw [key]; exact UInt64.ofNat_toNat
 
+/-! ## the finite range -/
+
+theorem log2_lt_iff (z k : Nat) (hk : 0 < k) : z.log2 < k ↔ z < 2 ^ k := by
+  rcases Nat.eq_zero_or_pos z with h | h
+  · subst h; simp [Nat.log2_zero, hk]
+  · exact Nat.log2_lt (by omega)
+
+/-- a rounded magnitude below `2^1024` is a finite double -/
+theorem roundMag_rep (n d : Nat) (hd : 0 < d) (h : (roundMag n d).log2 < 2098) : Rep (roundMag n d) := by
+  rw [log2_lt_iff _ _ (by decide)] at h
+  rw [roundMag_eq] at h ⊢
+  obtain ⟨K, hK⟩ : ∃ K, K = 2098 := ⟨_, rfl⟩
+  rw [← hK] at h
+  revert h
+  generalize scale * n = a
+  intro h
+  have hk := signif_le a d hd
+  rcases Nat.lt_or_ge (rneDiv a (d * 2 ^ quantum a d)) (2 ^ 53) with h1 | h1
+  · refine ⟨_, _, h1, ?_, rfl⟩
+    apply Nat.le_of_not_gt
+    intro hs
+    have hk2 := le_signif a d (by omega)
+    have h3 : 2 ^ 52 * 2 ^ quantum a d ≤ rneDiv a (d * 2 ^ quantum a d) * 2 ^ quantum a d :=
+      Nat.mul_le_mul_right _ hk2
+    rw [← Nat.pow_add] at h3
+    have h4 : 52 + quantum a d < K := (Nat.pow_lt_pow_iff_right (by decide)).mp (Nat.lt_of_le_of_lt h3 h)
+    omega
+  · have e : rneDiv a (d * 2 ^ quantum a d) = 2 ^ 53 := Nat.le_antisymm hk h1
+    rw [e, ← Nat.pow_add] at h
+    have h2 : 53 + quantum a d < K := (Nat.pow_lt_pow_iff_right (by decide)).mp h
+    refine ⟨2 ^ 52, quantum a d + 1, by decide, by omega, ?_⟩
+    rw [e, Nat.pow_succ]; ring
+
+/-! ## `roundRat` -/
+
+/-- the signed, scaled, unbounded-exponent rounding of `num / den` -/
+def sval (num : Int) (den : Nat) : Int :=
+  if num < 0 then -(roundMag num.natAbs den : Int) else (roundMag num.natAbs den : Int)
+
+theorem sval_natAbs (num : Int) (den : Nat) : (sval num den).natAbs = roundMag num.natAbs den := by
+  unfold sval; split <;> simp
+
+/-- **totality**: a result for every rational -/
+theorem roundRat_total (num : Int) (den : Nat) (hd : 0 < den) : roundRat num den ≠ .zeroDen := by
+  unfold roundRat finish
+  rw [if_neg (by omega)]
+  split <;> simp
+
+theorem roundRat_zeroDen (num : Int) : roundRat num 0 = .zeroDen := by
+  unfold roundRat; rw [if_pos rfl]
+
+theorem roundRat_ok {num : Int} {den : Nat} {w : UInt64} (h : roundRat num den = .ok w) :
+    0 < den ∧ (roundMag num.natAbs den).log2 < 2098 ∧ w = encodeScaled (decide (num < 0)) (roundMag num.natAbs den) := by
+  unfold roundRat finish at h
+  split at h
+  · cases h
+  · split at h
+    · cases h
+    · injection h with h
+      exact ⟨by omega, by omega, h.symm⟩
+
+theorem roundRat_overflow {num : Int} {den : Nat} {neg : Bool} (h : roundRat num den = .overflow neg) :
+    0 < den ∧ 2098 ≤ (roundMag num.natAbs den).log2 ∧ neg = decide (num < 0) := by
+  unfold roundRat finish at h
+  split at h
+  · cases h
+  · split at h
+    · injection h with h
+      exact ⟨by omega, by assumption, h.symm⟩
+    · cases h
+
+/-- the value of a finite result is the signed rounding, and its magnitude is a finite double -/
+theorem roundRat_decode {num : Int} {den : Nat} {w : UInt64} (h : roundRat num den = .ok w) :
+    decode w = .fin (sval num den) := by
+  obtain ⟨hd, hl, hw⟩ := roundRat_ok h
+  rw [hw, decode_encodeScaled _ _ (roundMag_rep _ _ hd hl)]
+  unfold sval
+  by_cases hn : num < 0 <;> simp [hn]
+
+/-- the value of any result in the extended order -/
+theorem roundRat_ext (num : Int) (den : Nat) (hd : 0 < den) :
+    (roundRat num den).ext =
+      if (roundMag num.natAbs den).log2 < 2098 then .fin (sval num den)
+      else if num < 0 then .ninf else .pinf := by
+  cases hr : roundRat num den with
+  | ok w =>
+    obtain ⟨_, hl, _⟩ := roundRat_ok hr
+    rw [if_pos hl]; exact roundRat_decode hr
+  | overflow neg =>
+    obtain ⟨_, hl, hn⟩ := roundRat_overflow hr
+    rw [if_neg (by omega), hn]
+    by_cases hn : num < 0 <;> simp [hn, Rounded.ext]
+  | zeroDen => exact absurd hr (roundRat_total num den hd)
+
+/-- `roundRat` depends on the rational only (in particular `roundRat (num * k) (den * k) = roundRat num den`) -/
+theorem roundRat_congr (num num' : Int) (den den' : Nat) (hd : 0 < den) (hd' : 0 < den')
+    (h : num * den' = num' * den) : roundRat num den = roundRat num' den' := by
+  have hmag : roundMag num.natAbs den = roundMag num'.natAbs den' := by
+    apply roundMag_congr _ _ _ _ hd hd'
+    have := congrArg Int.natAbs h
+    simpa [Int.natAbs_mul] using this
+  have hsign : decide (num < 0) = decide (num' < 0) := by
+    have h1 : (0 : Int) < den := by exact_mod_cast hd
+    have h2 : (0 : Int) < den' := by exact_mod_cast hd'
+    rw [decide_eq_decide]
+    constructor
+    · intro hn
+      have : num * den' < 0 := Int.mul_neg_of_neg_of_pos hn h2
+      rw [h] at this
+      by_contra hc
+      have : 0 ≤ num' * (den : Int) := Int.mul_nonneg (by omega) (by omega)
+      omega
+    · intro hn
+      have : num' * den < 0 := Int.mul_neg_of_neg_of_pos hn h1
+      rw [← h] at this
+      by_contra hc
+      have : 0 ≤ num * (den' : Int) := Int.mul_nonneg (by omega) (by omega)
+      omega
+  unfold roundRat
+  rw [if_neg (by omega), if_neg (by omega), hmag, hsign]
+
+theorem roundRat_scale (num : Int) (den k : Nat) (hd : 0 < den) (hk : 0 < k) :
+    roundRat (num * k) (den * k) = roundRat num den := by
+  apply roundRat_congr _ _ _ _ (Nat.mul_pos hd hk) hd
+  push_cast; ring
+
+/-! ## nearest, signed -/
+
+theorem repU_zero : RepU 0 := ⟨0, 0, by decide, by simp⟩
+
+/-- **nearest** on the signed scaled integers: no binary64 number `z / 2^1074` (any exponent) is nearer to
+    `num / den` than the rounding; distances multiplied by `den * 2^1074` -/
+theorem sval_nearest (num : Int) (den : Nat) (hd : 0 < den) (z : Int) (hz : RepU z.natAbs) :
+    ((scale : Int) * num - sval num den * den).natAbs ≤ ((scale : Int) * num - z * den).natAbs := by
+  have H1 := roundMag_nearest num.natAbs den hd z.natAbs hz
+  have H0 := roundMag_nearest num.natAbs den hd 0 repU_zero
+  unfold adiff at H1 H0
+  rw [Nat.zero_mul] at H0
+  have eA : (scale : Int) * num = if num < 0 then -((scale * num.natAbs : Nat) : Int) else ((scale * num.natAbs : Nat) : Int) := by
+    split
+    · have : (num.natAbs : Int) = -num := by omega
+      rw [Nat.cast_mul, this]; ring
+    · have : (num.natAbs : Int) = num := by omega
+      rw [Nat.cast_mul, this]
+  have eP : sval num den * den = if num < 0 then -((roundMag num.natAbs den * den : Nat) : Int)
+      else ((roundMag num.natAbs den * den : Nat) : Int) := by
+    unfold sval; split <;> push_cast <;> ring
+  have eQ : z * den = if z < 0 then -((z.natAbs * den : Nat) : Int) else ((z.natAbs * den : Nat) : Int) := by
+    split
+    · have : (z.natAbs : Int) = -z := by omega
+      rw [Nat.cast_mul, this]; ring
+    · have : (z.natAbs : Int) = z := by omega
+      rw [Nat.cast_mul, this]
+  rw [eA, eP, eQ]
+  generalize scale * num.natAbs = A at *
+  generalize roundMag num.natAbs den * den = P at *
+  generalize z.natAbs * den = Q at *
+  split <;> split <;> omega
+
+set_option exponentiation.threshold 1100 in
+theorem scale_pos : 0 < scale := Nat.two_pow_pos 1074
+
+theorem rep_log2 (r : Nat) (hr : Rep r) : r.log2 < 2098 := by
+  obtain ⟨K, hK⟩ : ∃ K, K = 2098 := ⟨_, rfl⟩
+  rw [← hK, log2_lt_iff _ _ (by omega)]
+  obtain ⟨M, s, hM, hs, rfl⟩ := hr
+  calc M * 2 ^ s < 2 ^ 53 * 2 ^ s := Nat.mul_lt_mul_of_pos_right hM (Nat.two_pow_pos _)
+    _ = 2 ^ (53 + s) := by rw [Nat.pow_add]
+    _ ≤ 2 ^ K := Nat.pow_le_pow_right (by decide) (by omega)
+
+/-- the sign bit of a finite non-zero double is the sign of its value -/
+theorem signBit_decode (w : UInt64) (z : Int) (h : decode w = .fin z) (hz : z ≠ 0) : signBit w = decide (z < 0) := by
+  obtain ⟨sgn, e, m, hw, hs, he, hm, hs', he', hm'⟩ := toNat_fields w
+  have he2 : e < 2047 := by
+    rcases Nat.lt_or_ge e 2047 with he2 | he2
+    · exact he2
+    · exfalso
+      have e47 : e = 2047 := by omega
+      unfold decode at h
+      simp only [← he', ← hm', e47] at h
+      split at h
+      · split at h
+        · split at h <;> cases h
+        · cases h
+      · rename_i hc; exact hc rfl
+  rw [decode_fields w sgn e m hw hs he2 hm] at h
+  injection h with h
+  generalize (if e = 0 then m else (2 ^ 52 + m) * 2 ^ (e - 1) : Nat) = mag at h
+  unfold signBit; rw [← hs']
+  rcases (show sgn = 0 ∨ sgn = 1 by omega) with h0 | h0 <;> subst h0 <;> simp at h ⊢ <;> omega
+
+theorem negZero_eq : encodeScaled true 0 = 0x8000000000000000 := by decide
+
+/-- **exact**: a rational that is a binary64 value (other than `-0.0`, which no rational denotes apart from `0 = +0.0`)
+    is returned unchanged, bit for bit; `scale * num = z * den` says `num / den = z / 2^1074` -/
+theorem roundRat_exact_int (num : Int) (den : Nat) (hd : 0 < den) (w : UInt64) (z : Int)
+    (hw : decode w = .fin z) (hq : (scale : Int) * num = z * den) (hnz : w ≠ 0x8000000000000000) :
+    roundRat num den = .ok w := by
+  have hrep := decode_rep w z hw
+  have hqn : scale * num.natAbs = z.natAbs * den := by
+    have := congrArg Int.natAbs hq
+    simpa [Int.natAbs_mul] using this
+  have hmag : roundMag num.natAbs den = z.natAbs := roundMag_exact _ _ hd _ hrep.repU hqn
+  have hS : (0 : Int) < scale := by exact_mod_cast scale_pos
+  have hD : (0 : Int) < den := by exact_mod_cast hd
+  have hsign : decide (num < 0) = signBit w := by
+    by_cases hz : z = 0
+    · subst hz
+      have hn0 : num = 0 := by
+        rw [Int.zero_mul] at hq
+        rcases Int.mul_eq_zero.mp hq with h | h
+        · omega
+        · exact h
+      subst hn0
+      have := encodeScaled_decode w 0 hw
+      cases hsb : signBit w
+      · rfl
+      · rw [hsb] at this
+        exact absurd (this.symm.trans negZero_eq) hnz
+    · rw [signBit_decode w z hw hz, decide_eq_decide]
+      constructor
+      · intro hn
+        by_contra hc
+        have h1 : (scale : Int) * num < 0 := Int.mul_neg_of_pos_of_neg hS hn
+        have h2 : 0 ≤ z * (den : Int) := Int.mul_nonneg (by omega) (by omega)
+        omega
+      · intro hn
+        by_contra hc
+        have h1 : z * (den : Int) < 0 := Int.mul_neg_of_neg_of_pos hn hD
+        have h2 : 0 ≤ (scale : Int) * num := Int.mul_nonneg (by omega) (by omega)
+        omega
+  unfold roundRat finish
+  rw [if_neg (by omega), hmag, if_neg (by have := rep_log2 _ hrep; omega), hsign, encodeScaled_decode w z hw]
+
+/-- the mirror image of a result -/
+def negR : Rounded → Rounded
+  | .ok w => .ok (negBits w)
+  | .overflow b => .overflow (!b)
+  | .zeroDen => .zeroDen
+
+theorem encodeNat_false_lt (r : Nat) (hr : Rep r) : encodeNat false r < 2 ^ 63 := by
+  rcases Nat.lt_or_ge r (2 ^ 52) with h | h
+  · unfold encodeNat; rw [if_pos h]; simp; omega
+  · obtain ⟨m, h1, h2, _, h4, e⟩ := encodeNat_normal false r hr h
+    rw [e]; simp; omega
+
+theorem encodeNat_true (r : Nat) : encodeNat true r = 2 ^ 63 + encodeNat false r := by
+  unfold encodeNat; simp
+
+theorem negBits_encode (b : Bool) (r : Nat) (hr : Rep r) : negBits (encodeScaled b r) = encodeScaled (!b) r := by
+  have hlt := encodeNat_false_lt r hr
+  rw [encodeScaled_eq, encodeScaled_eq]
+  unfold negBits
+  rw [UInt64.toNat_ofNat']
+  cases b
+  · rw [Bool.not_false, encodeNat_true]
+    have e : (encodeNat false r % 2 ^ 64 + 2 ^ 63) % 2 ^ 64 = 2 ^ 63 + encodeNat false r := by omega
+    rw [e]
+  · rw [Bool.not_true, encodeNat_true]
+    have e : ((2 ^ 63 + encodeNat false r) % 2 ^ 64 + 2 ^ 63) % 2 ^ 64 = encodeNat false r := by omega
+    rw [e]
+
+/-- **symmetry**: the rounding of `-q` is the mirror image of the rounding of `q` (sign bit flipped) -/
+theorem roundRat_neg (num : Int) (den : Nat) (hn : num ≠ 0) : roundRat (-num) den = negR (roundRat num den) := by
+  unfold roundRat finish
+  by_cases hd : den = 0
+  · rw [if_pos hd, if_pos hd]; rfl
+  · rw [if_neg hd, if_neg hd, Int.natAbs_neg]
+    have hs : decide (-num < 0) = !decide (num < 0) := by
+      by_cases h : num < 0 <;> simp [h] <;> omega
+    rw [hs]
+    split
+    · rfl
+    · rename_i hl
+      simp only [negR]
+      rw [negBits_encode _ _ (roundMag_rep _ _ (by omega) (by omega))]
+
 end Yaql.Props.FloatRound
